@@ -392,4 +392,602 @@ theorem update_then_pass_canonical_example :
       (run p ⟨false, true, fun _ => true⟩).dir := by
   decide
 
+/-! ## the results of a run in closed form -/
+
+/-- statuses of one test document before the reporter -/
+def caseList (p : Project V) (fl : Flags) (tc : TestCase) : List (CaseStatus V) :=
+  tc.valid.map (verifyValid (p.gen tc.id)) ++
+    tc.invalid.map (fun s => if fl.skipSnapshotTests then verifyInvalid (p.gen tc.id) s
+      else verifySnapshot (p.gen tc.id) s (stored fl.filter p.dir tc.id s))
+
+/-- ... and after it -/
+def finalResult (p : Project V) (fl : Flags) (tc : TestCase) : CaseResult V :=
+  if (⟨tc.id, caseList p fl tc⟩ : CaseResult V).passed then ⟨tc.id, caseList p fl tc⟩
+  else if fl.updateAll then ⟨tc.id, (caseList p fl tc).map CaseStatus.accept⟩ else ⟨tc.id, caseList p fl tc⟩
+
+theorem verifyTestCaseSimple_eq (p : Project V) (fl : Flags) (tc : TestCase) :
+    verifyTestCaseSimple p.rules p.gen
+      (if fl.skipSnapshotTests then none else some (loadHarness fl.filter p.tests p.dir).snapshots) tc =
+      if tc.id ∈ p.rules then some ⟨tc.id, caseList p fl tc⟩ else none := by
+  unfold verifyTestCaseSimple
+  by_cases hr : tc.id ∈ p.rules
+  · simp only [hr, if_true]
+    cases hs : fl.skipSnapshotTests
+    · simp [verifyTestCaseWithSnapshots, caseList, hs, stored, loadHarness]
+    · simp [verifyTestCase, caseList, hs]
+  · simp [hr]
+
+omit [DecidableEq V] in
+theorem filterMap_results_aux (post : CaseResult V → CaseResult V) (rules : List Id)
+    (mk : TestCase → CaseResult V) (l : List TestCase) :
+    (l.filterMap (fun tc => if tc.id ∈ rules then some (mk tc) else none)).map post =
+      (l.filter (fun t => decide (t.id ∈ rules))).map (fun tc => post (mk tc)) := by
+  induction l with
+  | nil => rfl
+  | cons tc rest ih =>
+    by_cases hr : tc.id ∈ rules
+    · simp [List.filterMap_cons, hr, ih]
+    · simp [List.filterMap_cons, hr, ih]
+
+theorem results_eq (p : Project V) (fl : Flags) :
+    (run p fl).results =
+      ((p.tests.filter (fun t => fl.filter t.id)).filter (fun t => decide (t.id ∈ p.rules))).map (finalResult p fl) := by
+  have h0 : (run p fl).results = reportFailedCases fl.updateAll
+      (List.filterMap (fun x : Id × Option (CaseResult V) => x.2)
+        (List.map (fun tc => (tc.id, verifyTestCaseSimple p.rules p.gen
+          (if fl.skipSnapshotTests then none else some (loadHarness fl.filter p.tests p.dir).snapshots) tc))
+          (loadHarness fl.filter p.tests p.dir).testCases)) := rfl
+  have hl : (loadHarness fl.filter p.tests p.dir).testCases = p.tests.filter (fun t => fl.filter t.id) := rfl
+  have hf : ((fun x : Id × Option (CaseResult V) => x.2) ∘ fun tc => (tc.id, verifyTestCaseSimple p.rules p.gen
+          (if fl.skipSnapshotTests then none else some (loadHarness fl.filter p.tests p.dir).snapshots) tc)) =
+      fun tc => if tc.id ∈ p.rules then some (⟨tc.id, caseList p fl tc⟩ : CaseResult V) else none := by
+    funext tc; exact verifyTestCaseSimple_eq p fl tc
+  rw [h0, List.filterMap_map, hl, hf]
+  unfold reportFailedCases
+  rw [filterMap_results_aux]
+  rfl
+
+theorem mem_results (p : Project V) (fl : Flags) (r : CaseResult V) :
+    r ∈ (run p fl).results ↔
+      ∃ tc ∈ p.tests, fl.filter tc.id = true ∧ tc.id ∈ p.rules ∧ r = finalResult p fl tc := by
+  rw [results_eq, List.mem_map]
+  constructor
+  · rintro ⟨tc, htc, rfl⟩
+    simp only [List.mem_filter, decide_eq_true_eq] at htc
+    exact ⟨tc, htc.1.1, htc.1.2, htc.2, rfl⟩
+  · rintro ⟨tc, h1, h2, h3, rfl⟩
+    exact ⟨tc, by simp [List.mem_filter, h1, h2, h3], rfl⟩
+
+theorem finalResult_id (p : Project V) (fl : Flags) (tc : TestCase) : (finalResult p fl tc).id = tc.id := by
+  unfold finalResult; split
+  · rfl
+  · split <;> rfl
+
+/-- `Updated` statuses of a `-U` run: exactly the invalid cases whose generated snapshot is not
+the stored one -/
+theorem updated_mem_finalResult (p : Project V) (flt : Id → Bool) (tc : TestCase) (s : Source) (v : V) :
+    .updated s v ∈ (finalResult p ⟨false, true, flt⟩ tc).cases ↔
+      s ∈ tc.invalid ∧ p.gen tc.id s = .snap v ∧ stored flt p.dir tc.id s ≠ some v := by
+  have hC : ∀ c ∈ caseList p ⟨false, true, flt⟩ tc, (c ≠ .updated s v) ∧
+      (c.accept = .updated s v → s ∈ tc.invalid ∧ p.gen tc.id s = .snap v ∧ stored flt p.dir tc.id s ≠ some v) := by
+    intro c hc
+    simp only [caseList, List.mem_append, List.mem_map, Bool.false_eq_true, if_false] at hc
+    rcases hc with ⟨s', _, rfl⟩ | ⟨s', hs', rfl⟩
+    · unfold verifyValid; cases p.gen tc.id s' <;> simp [CaseStatus.accept]
+    · unfold verifySnapshot
+      cases hg : p.gen tc.id s' with
+      | noMatch => simp [CaseStatus.accept]
+      | fixError => simp [CaseStatus.accept]
+      | snap a =>
+        cases hst : stored flt p.dir tc.id s' with
+        | none =>
+          simp only [CaseStatus.accept]
+          refine ⟨by simp, fun h => ?_⟩
+          cases h; exact ⟨hs', hg, by simp [hst]⟩
+        | some e0 =>
+          by_cases he : e0 = a
+          · simp [he, CaseStatus.accept]
+          · simp only [he, if_false, CaseStatus.accept]
+            refine ⟨by simp, fun h => ?_⟩
+            cases h; exact ⟨hs', hg, by simp [hst, he]⟩
+  constructor
+  · intro h
+    unfold finalResult at h
+    split at h
+    · exact absurd rfl (hC _ h).1
+    · simp only [if_true] at h
+      obtain ⟨c, hc, hca⟩ := List.mem_map.mp h
+      exact (hC c hc).2 hca
+  · rintro ⟨hs, hg, hst⟩
+    have hw : verifySnapshot (p.gen tc.id) s (stored flt p.dir tc.id s) = .wrong s v (stored flt p.dir tc.id s) := by
+      unfold verifySnapshot; rw [hg]
+      cases hst' : stored flt p.dir tc.id s with
+      | none => rfl
+      | some e0 =>
+        have : ¬ e0 = v := fun e => hst (by rw [hst', e])
+        simp [this]
+    have hmem : CaseStatus.wrong s v (stored flt p.dir tc.id s) ∈ caseList p ⟨false, true, flt⟩ tc := by
+      simp only [caseList, List.mem_append, List.mem_map, Bool.false_eq_true, if_false]
+      exact .inr ⟨s, hs, hw⟩
+    unfold finalResult
+    have hnp : ¬ (⟨tc.id, caseList p ⟨false, true, flt⟩ tc⟩ : CaseResult V).passed = true := by
+      intro hp
+      have := List.all_eq_true.mp hp _ hmem
+      simp [CaseStatus.isPass] at this
+    rw [if_neg hnp]
+    simp only [if_true]
+    exact List.mem_map.mpr ⟨_, hmem, rfl⟩
+
+/-! ## what `update_snapshot_collection` accepts -/
+
+theorem mem_changedSnapshots {r : CaseResult V} {s : Source} {v : V} (h : (s, v) ∈ r.changedSnapshots) :
+    .updated s v ∈ r.cases := by
+  have := mem_afromList h
+  obtain ⟨c, hc, hu⟩ := List.mem_filterMap.mp this
+  cases c <;> simp [updatedEntry] at hu
+  obtain ⟨rfl, rfl⟩ := hu
+  exact hc
+
+theorem mem_keys_changedSnapshots (r : CaseResult V) (s : Source) :
+    s ∈ keys r.changedSnapshots ↔ ∃ v, .updated s v ∈ r.cases := by
+  unfold CaseResult.changedSnapshots
+  rw [mem_keys_afromList]
+  constructor
+  · intro h
+    obtain ⟨⟨s', v⟩, hm, rfl⟩ := List.mem_map.mp h
+    obtain ⟨c, hc, hu⟩ := List.mem_filterMap.mp hm
+    cases c <;> simp [updatedEntry] at hu
+    obtain ⟨rfl, rfl⟩ := hu
+    exact ⟨_, hc⟩
+  · rintro ⟨v, hc⟩
+    exact List.mem_map.mpr ⟨(s, v), List.mem_filterMap.mpr ⟨_, hc, rfl⟩, rfl⟩
+
+theorem nodup_keys_buildAccepted (rs : List (CaseResult V)) : (keys (buildAccepted rs)).Nodup := by
+  rw [buildAccepted_eq]; exact nodup_keys_mergeSnapshots _ [] List.nodup_nil
+
+theorem inner_nodup_buildAccepted (rs : List (CaseResult V)) (e : Id × List (Source × V))
+    (he : e ∈ buildAccepted rs) : (keys e.2).Nodup := by
+  have hl : alookup e.1 (buildAccepted rs) = some e.2 := mem_alookup_of_nodup (nodup_keys_buildAccepted rs) he
+  rw [buildAccepted_eq] at hl
+  refine inner_nodup_mergeSnapshots e.1 _ [] (fun m hm => by simp [alookup] at hm) ?_ e.2 hl
+  intro e' he' _
+  obtain ⟨r, _, rfl⟩ := List.mem_map.mp he'
+  exact nodup_keys_afromList _
+
+theorem accepted_has_id (rs : List (CaseResult V)) (id : Id) :
+    (∃ e ∈ buildAccepted rs, e.1 = id) ↔ ∃ r ∈ rs, r.id = id := by
+  have h := alookup_mergeSnapshots_none id (rs.map fun r => (r.id, r.changedSnapshots)) ([] : Coll V)
+  rw [← buildAccepted_eq] at h
+  constructor
+  · rintro ⟨e, he, hid⟩
+    have hl : alookup id (buildAccepted rs) = some e.2 := hid ▸ mem_alookup_of_nodup (nodup_keys_buildAccepted rs) he
+    by_cases hx : ∃ r ∈ rs, r.id = id
+    · exact hx
+    · have : alookup id (buildAccepted rs) = none := h.mpr ⟨rfl, fun e' he' hid' => by
+        obtain ⟨r, hr, rfl⟩ := List.mem_map.mp he'; exact hx ⟨r, hr, hid'⟩⟩
+      rw [this] at hl; cases hl
+  · rintro ⟨r, hr, hid⟩
+    cases hl : alookup id (buildAccepted rs) with
+    | none => exact absurd hid ((h.mp hl).2 (r.id, r.changedSnapshots) (List.mem_map.mpr ⟨r, hr, rfl⟩))
+    | some m => exact ⟨(id, m), alookup_some_mem hl, rfl⟩
+
+theorem accepted_lookup (rs : List (CaseResult V)) (id : Id) (s : Source) (v : V)
+    (h : (alookup id (buildAccepted rs)).bind (alookup s) = some v) :
+    ∃ r ∈ rs, r.id = id ∧ .updated s v ∈ r.cases := by
+  rw [buildAccepted_eq] at h
+  by_cases hL : ∃ e' ∈ (rs.map fun r => (r.id, r.changedSnapshots)), e'.1 = id ∧ s ∈ keys e'.2
+  · obtain ⟨v', hv', e', he', hid, hm⟩ := mergeSnapshots_accepted id s _ ([] : Coll V) hL
+    rw [hv'] at h; cases h
+    obtain ⟨r, hr, rfl⟩ := List.mem_map.mp he'
+    exact ⟨r, hr, hid, mem_changedSnapshots hm⟩
+  · rw [mergeSnapshots_frame id s _ ([] : Coll V) (fun e' he' hid hk => hL ⟨e', he', hid, hk⟩)] at h
+    simp [alookup] at h
+
+theorem accepted_values (rs : List (CaseResult V)) (e : Id × List (Source × V)) (he : e ∈ buildAccepted rs)
+    (s : Source) (v : V) (hm : (s, v) ∈ e.2) : ∃ r ∈ rs, r.id = e.1 ∧ .updated s v ∈ r.cases := by
+  apply accepted_lookup
+  rw [mem_alookup_of_nodup (nodup_keys_buildAccepted rs) he]
+  exact mem_alookup_of_nodup (inner_nodup_buildAccepted rs e he) hm
+
+theorem accepted_mentions_iff (rs : List (CaseResult V)) (id : Id) (s : Source) :
+    (∃ e ∈ buildAccepted rs, e.1 = id ∧ s ∈ keys e.2) ↔ ∃ r ∈ rs, r.id = id ∧ ∃ v, .updated s v ∈ r.cases := by
+  constructor
+  · rintro ⟨e, he, hid, hk⟩
+    obtain ⟨v, _, hm⟩ := alookup_of_mem_keys hk
+    obtain ⟨r, hr, hrid, hu⟩ := accepted_values rs e he s v hm
+    exact ⟨r, hr, hrid.trans hid, v, hu⟩
+  · rintro ⟨r, hr, hid, v, hu⟩
+    have hL : ∃ e' ∈ (rs.map fun r => (r.id, r.changedSnapshots)), e'.1 = id ∧ s ∈ keys e'.2 :=
+      ⟨_, List.mem_map.mpr ⟨r, hr, rfl⟩, hid, (mem_keys_changedSnapshots r s).mpr ⟨v, hu⟩⟩
+    obtain ⟨v', hv', _⟩ := mergeSnapshots_accepted id s _ ([] : Coll V) hL
+    rw [← buildAccepted_eq] at hv'
+    cases hl : alookup id (buildAccepted rs) with
+    | none => rw [hl] at hv'; cases hv'
+    | some m =>
+      rw [hl] at hv'
+      refine ⟨(id, m), alookup_some_mem hl, rfl, ?_⟩
+      by_cases hk : s ∈ keys m
+      · exact hk
+      · rw [show (some m).bind (alookup s) = alookup s m from rfl, (alookup_none_iff s m).mpr hk] at hv'; cases hv'
+
+/-! ## the collection a `-U` run writes, in closed form -/
+
+/-- what `apply_snapshot_action` hands to `write_merged_to_disk` in a `-U` run -/
+def mergedOf (p : Project V) (flt : Id → Bool) : Coll V :=
+  mergeSnapshots (buildAccepted (run p ⟨false, true, flt⟩).results) (loadSnapshots flt p.dir)
+
+def pathIdsOf (p : Project V) (flt : Id → Bool) : List Id := (p.tests.filter (fun t => flt t.id)).map (·.id)
+
+theorem run_update_dir (p : Project V) (flt : Id → Bool) :
+    (run p ⟨false, true, flt⟩).dir = writeMergedToDisk (mergedOf p flt) (pathIdsOf p flt) p.dir := rfl
+
+theorem mem_pathIdsOf (p : Project V) (flt : Id → Bool) (id : Id) :
+    id ∈ pathIdsOf p flt ↔ ∃ tc ∈ p.tests, flt tc.id = true ∧ tc.id = id := by
+  simp [pathIdsOf, List.mem_map, List.mem_filter, and_assoc]
+
+/-- an (id, source) pair some test document lists as invalid, for an existing rule that generates a snapshot -/
+def Tested (p : Project V) (flt : Id → Bool) (id : Id) (s : Source) : Prop :=
+  ∃ tc ∈ p.tests, flt tc.id = true ∧ tc.id = id ∧ id ∈ p.rules ∧ s ∈ tc.invalid ∧ ∃ v, p.gen id s = .snap v
+
+theorem nodup_keys_mergedOf (p : Project V) (flt : Id → Bool) : (keys (mergedOf p flt)).Nodup :=
+  nodup_keys_mergeSnapshots _ _ (nodup_keys_loadSnapshots flt p.dir)
+
+theorem inner_nodup_mergedOf (p : Project V) (flt : Id → Bool) (id : Id) (m : List (Source × V))
+    (h : alookup id (mergedOf p flt) = some m) : (keys m).Nodup := by
+  refine inner_nodup_mergeSnapshots id _ _ ?_ ?_ m h
+  · intro m' hm'; exact inner_nodup_loadSnapshots flt p.dir (id, m') (alookup_some_mem hm')
+  · intro e he _; exact inner_nodup_buildAccepted _ e he
+
+/-- which ids the written collection has: the loaded ones and those with a result -/
+theorem mergedOf_none_iff (p : Project V) (flt : Id → Bool) (id : Id) :
+    alookup id (mergedOf p flt) = none ↔
+      alookup id (loadSnapshots flt p.dir) = none ∧ ¬ ∃ tc ∈ p.tests, flt tc.id = true ∧ tc.id = id ∧ id ∈ p.rules := by
+  unfold mergedOf
+  rw [alookup_mergeSnapshots_none]
+  refine and_congr Iff.rfl ?_
+  have h1 := accepted_has_id (run p ⟨false, true, flt⟩).results id
+  constructor
+  · intro h ⟨tc, htc, hf, hid, hr⟩
+    obtain ⟨e, he, hid'⟩ := h1.mpr ⟨finalResult p ⟨false, true, flt⟩ tc,
+      (mem_results _ _ _).mpr ⟨tc, htc, hf, hid ▸ hr, rfl⟩, (finalResult_id _ _ _).trans hid⟩
+    exact h e he hid'
+  · intro h e he hid
+    obtain ⟨r, hr, hrid⟩ := h1.mp ⟨e, he, hid⟩
+    obtain ⟨tc, htc, hf, hrule, rfl⟩ := (mem_results _ _ _).mp hr
+    rw [finalResult_id] at hrid
+    exact h ⟨tc, htc, hf, hrid, hrid ▸ hrule⟩
+
+theorem mentions_iff_updated (p : Project V) (flt : Id → Bool) (id : Id) (s : Source) :
+    (∃ e ∈ buildAccepted (run p ⟨false, true, flt⟩).results, e.1 = id ∧ s ∈ keys e.2) ↔
+      ∃ tc ∈ p.tests, flt tc.id = true ∧ tc.id = id ∧ id ∈ p.rules ∧ s ∈ tc.invalid ∧
+        ∃ v, p.gen id s = .snap v ∧ stored flt p.dir id s ≠ some v := by
+  rw [accepted_mentions_iff]
+  constructor
+  · rintro ⟨r, hr, hid, v, hu⟩
+    obtain ⟨tc, htc, hf, hrule, rfl⟩ := (mem_results _ _ _).mp hr
+    rw [finalResult_id] at hid
+    obtain ⟨hs, hg, hst⟩ := (updated_mem_finalResult p flt tc s v).mp hu
+    subst hid
+    exact ⟨tc, htc, hf, rfl, hrule, hs, v, hg, hst⟩
+  · rintro ⟨tc, htc, hf, hid, hrule, hs, v, hg, hst⟩
+    subst hid
+    exact ⟨_, (mem_results _ _ _).mpr ⟨tc, htc, hf, hrule, rfl⟩, finalResult_id _ _ _, v,
+      (updated_mem_finalResult p flt tc s v).mpr ⟨hs, hg, hst⟩⟩
+
+/-- **the written bindings**: a tested invalid source gets the generated snapshot, any other
+source keeps the stored one -/
+theorem mergedOf_lookup (p : Project V) (flt : Id → Bool) (id : Id) (s : Source) :
+    (∀ v, Tested p flt id s → p.gen id s = .snap v → (alookup id (mergedOf p flt)).bind (alookup s) = some v) ∧
+    (¬ Tested p flt id s → (alookup id (mergedOf p flt)).bind (alookup s) = stored flt p.dir id s) := by
+  have hspec := merged_spec (loadSnapshots flt p.dir) (run p ⟨false, true, flt⟩).results id s
+  constructor
+  · intro v ⟨tc, htc, hf, hid, hrule, hs, _⟩ hg
+    by_cases hA : ∃ e ∈ buildAccepted (run p ⟨false, true, flt⟩).results, e.1 = id ∧ s ∈ keys e.2
+    · obtain ⟨v', hv', e, he, hid', hm⟩ := hspec.2 hA
+      obtain ⟨r, hr, hrid, hu⟩ := accepted_values _ e he s v' hm
+      have := fixed_is_cli_edit p ⟨false, true, flt⟩ r hr s v' (.inl hu)
+      rw [hrid, hid', hg] at this
+      cases this
+      exact hv'
+    · have hfr := hspec.1 (fun e he hid' hk => hA ⟨e, he, hid', hk⟩)
+      show (alookup id (mergedOf p flt)).bind (alookup s) = some v
+      unfold mergedOf; rw [hfr]
+      by_cases hst : stored flt p.dir id s = some v
+      · exact hst
+      · exact absurd ((mentions_iff_updated p flt id s).mpr ⟨tc, htc, hf, hid, hrule, hs, v, hg, hst⟩) hA
+  · intro hT
+    have hA : ¬ ∃ e ∈ buildAccepted (run p ⟨false, true, flt⟩).results, e.1 = id ∧ s ∈ keys e.2 := by
+      intro hA
+      obtain ⟨tc, htc, hf, hid, hrule, hs, v, hg, _⟩ := (mentions_iff_updated p flt id s).mp hA
+      exact hT ⟨tc, htc, hf, hid, hrule, hs, v, hg⟩
+    exact hspec.1 (fun e he hid' hk => hA ⟨e, he, hid', hk⟩)
+
+/-- what every file holds after a `-U` run -/
+theorem readFile_run_update (p : Project V) (flt : Id → Bool) (id : Id) :
+    readFile (snapName id) (run p ⟨false, true, flt⟩).dir =
+      if id ∈ pathIdsOf p flt then
+        match alookup id (mergedOf p flt) with
+        | some m => some { name := snapName id, id := id, entries := orderedMap m }
+        | none => readFile (snapName id) p.dir
+      else readFile (snapName id) p.dir := by
+  rw [run_update_dir, readFile_writeMerged _ _ _ _ (nodup_keys_mergedOf p flt),
+    find_snapName id _ _ (nodup_keys_mergedOf p flt)]
+  by_cases hp : id ∈ pathIdsOf p flt
+  · simp only [hp, if_true]
+    cases alookup id (mergedOf p flt) <;> rfl
+  · simp [hp]
+
+theorem canonical_run (p : Project V) (fl : Flags) (hc : CanonicalNames p.dir) : CanonicalNames (run p fl).dir := by
+  show CanonicalNames (applySnapshotAction _ _ _ _ _)
+  unfold applySnapshotAction
+  split
+  · exact hc
+  · split
+    · exact hc
+    · exact CanonicalNames.writeMerged _ _ _ hc
+
+/-! ## `--update-all`, then `sg test`; `--update-all` twice; order (C13) — under `CanonicalNames` -/
+
+/-- what the next run finds stored for a written id -/
+theorem stored_run_update (p : Project V) (flt : Id → Bool) (hc : CanonicalNames p.dir) (id : Id)
+    (hp : id ∈ pathIdsOf p flt) (m : List (Source × V)) (hm : alookup id (mergedOf p flt) = some m) (s : Source) :
+    stored flt (run p ⟨false, true, flt⟩).dir id s = alookup s m := by
+  have hf : flt id = true := by
+    obtain ⟨tc, _, hf, rfl⟩ := (mem_pathIdsOf p flt id).mp hp; exact hf
+  unfold stored
+  rw [alookup_loadSnapshots flt id _ (canonical_run p _ hc), readFile_run_update, if_pos hp, hm]
+  simp only [hf, if_true, Option.map_some, Option.bind_some]
+  exact alookup_afromList_orderedMap (inner_nodup_mergedOf p flt id m hm) s
+
+/-- after `-U`, every tested invalid source finds its generated snapshot stored -/
+theorem stored_after_update (p : Project V) (flt : Id → Bool) (hc : CanonicalNames p.dir)
+    (tc : TestCase) (htc : tc ∈ p.tests) (hf : flt tc.id = true) (hr : tc.id ∈ p.rules)
+    (s : Source) (hs : s ∈ tc.invalid) (v : V) (hg : p.gen tc.id s = .snap v) :
+    stored flt (run p ⟨false, true, flt⟩).dir tc.id s = some v := by
+  have hp : tc.id ∈ pathIdsOf p flt := (mem_pathIdsOf p flt _).mpr ⟨tc, htc, hf, rfl⟩
+  cases hm : alookup tc.id (mergedOf p flt) with
+  | none => exact absurd ⟨tc, htc, hf, rfl, hr⟩ ((mergedOf_none_iff p flt tc.id).mp hm).2
+  | some m =>
+    rw [stored_run_update p flt hc tc.id hp m hm s]
+    have := (mergedOf_lookup p flt tc.id s).1 v ⟨tc, htc, hf, rfl, hr, hs, v, hg⟩ hg
+    rw [hm] at this; exact this
+
+/-- **`-U` then `test` (C13).** In a directory whose snapshot files carry the canonical names,
+`sg test` after `sg test -U` reports no snapshot mismatch: no status of the second run is `Wrong`
+(every invalid case with a generated snapshot is `Reported`), and its exit status is the exit
+status of the `-U` run, i.e. it is decided by the findings alone. -/
+theorem update_then_pass (p : Project V) (flt : Id → Bool) (hc : CanonicalNames p.dir) :
+    let p2 : Project V := { p with dir := (run p ⟨false, true, flt⟩).dir }
+    (∀ r ∈ (run p2 ⟨false, false, flt⟩).results, ∀ c ∈ r.cases, ∀ s a e, c ≠ .wrong s a e) ∧
+    (run p2 ⟨false, false, flt⟩).passed = (run p ⟨false, true, flt⟩).passed := by
+  intro p2
+  constructor
+  · intro r hr c hcm s a e hw
+    obtain ⟨tc, htc, hf, hrule, rfl⟩ := (mem_results _ _ _).mp hr
+    have hcases : (finalResult p2 ⟨false, false, flt⟩ tc).cases = caseList p2 ⟨false, false, flt⟩ tc := by
+      unfold finalResult; split
+      · rfl
+      · rfl
+    rw [hcases] at hcm
+    simp only [caseList, List.mem_append, List.mem_map, Bool.false_eq_true, if_false] at hcm
+    subst hw
+    rcases hcm with ⟨s', _, h⟩ | ⟨s', hs', h⟩
+    · unfold verifyValid at h; cases hg : p2.gen tc.id s' <;> simp [hg] at h
+    · unfold verifySnapshot at h
+      cases hg : p2.gen tc.id s' with
+      | noMatch => simp [hg] at h
+      | fixError => simp [hg] at h
+      | snap v =>
+        have hst : stored flt p2.dir tc.id s' = some v := stored_after_update p flt hc tc htc hf hrule s' hs' v hg
+        simp [hg, hst] at h
+  · rw [Bool.eq_iff_iff, run_passed_iff, run_passed_iff]
+    refine forall_congr' fun tc => forall_congr' fun htc => forall_congr' fun hf => forall_congr' fun hrule => ?_
+    refine and_congr Iff.rfl (forall_congr' fun s => forall_congr' fun hs => ?_)
+    show InvalidPasses false false (p.gen tc.id s) (stored flt (run p ⟨false, true, flt⟩).dir tc.id s) ↔
+      InvalidPasses false true (p.gen tc.id s) (stored flt p.dir tc.id s)
+    unfold InvalidPasses
+    cases hg : p.gen tc.id s with
+    | noMatch => exact Iff.rfl
+    | fixError => exact Iff.rfl
+    | snap v => simp [stored_after_update p flt hc tc htc hf hrule s hs v hg]
+
+/-- **`-U` twice (C13).** A second `sg test -U` writes a directory equal to the first one's — the
+same files in the same walk order with the same entries (list equality). -/
+theorem update_idempotent (p : Project V) (flt : Id → Bool) (hc : CanonicalNames p.dir) :
+    (run { p with dir := (run p ⟨false, true, flt⟩).dir } ⟨false, true, flt⟩).dir =
+      (run p ⟨false, true, flt⟩).dir := by
+  let p2 : Project V := { p with dir := (run p ⟨false, true, flt⟩).dir }
+  show (run p2 ⟨false, true, flt⟩).dir = p2.dir
+  rw [run_update_dir]
+  apply writeMerged_same
+  intro e he hp
+  have hp1 : e.1 ∈ pathIdsOf p flt := hp
+  have he2 : alookup e.1 (mergedOf p2 flt) = some e.2 := mem_alookup_of_nodup (nodup_keys_mergedOf p2 flt) he
+  have hf : flt e.1 = true := by
+    obtain ⟨tc, _, hf, hid⟩ := (mem_pathIdsOf p flt e.1).mp hp1; rw [← hid]; exact hf
+  show readFile (snapName e.1) (run p ⟨false, true, flt⟩).dir = _
+  rw [readFile_run_update, if_pos hp1]
+  cases hm1 : alookup e.1 (mergedOf p flt) with
+  | some m1 =>
+    simp only
+    congr 2
+    apply orderedMap_ext (inner_nodup_mergedOf p flt e.1 m1 hm1) (inner_nodup_mergedOf p2 flt e.1 e.2 he2)
+    intro s
+    by_cases hT : Tested p flt e.1 s
+    · obtain ⟨tc, htc, hf', hid, hrule, hs, v, hg⟩ := hT
+      have h1 := (mergedOf_lookup p flt e.1 s).1 v ⟨tc, htc, hf', hid, hrule, hs, v, hg⟩ hg
+      have h2 := (mergedOf_lookup p2 flt e.1 s).1 v ⟨tc, htc, hf', hid, hrule, hs, v, hg⟩ hg
+      rw [hm1] at h1; rw [he2] at h2
+      exact h1.trans h2.symm
+    · have h2 := (mergedOf_lookup p2 flt e.1 s).2 hT
+      rw [he2] at h2
+      have h3 := stored_run_update p flt hc e.1 hp1 m1 hm1 s
+      exact (h3.symm.trans h2.symm)
+  | none =>
+    exfalso
+    have h1 := (mergedOf_none_iff p flt e.1).mp hm1
+    have hload : alookup e.1 (loadSnapshots flt p2.dir) = alookup e.1 (loadSnapshots flt p.dir) := by
+      rw [alookup_loadSnapshots flt e.1 _ (canonical_run p _ hc), alookup_loadSnapshots flt e.1 _ hc]
+      show (if flt e.1 = true then Option.map _ (readFile (snapName e.1) (run p ⟨false, true, flt⟩).dir) else none) = _
+      rw [readFile_run_update, if_pos hp1, hm1]
+    have : alookup e.1 (mergedOf p2 flt) = none :=
+      (mergedOf_none_iff p2 flt e.1).mpr ⟨hload.trans h1.1, h1.2⟩
+    rw [this] at he2; cases he2
+
+/-- two lists of test documents that differ by what the property calls irrelevant: the order of
+the documents (files, several of them may share an id) and of the sources inside `valid` / `invalid` -/
+def TestsEquiv (t t' : List TestCase) : Prop :=
+  (∀ tc ∈ t', ∃ tc0 ∈ t, tc0.id = tc.id ∧ tc0.valid.Perm tc.valid ∧ tc0.invalid.Perm tc.invalid) ∧
+  (∀ tc0 ∈ t, ∃ tc ∈ t', tc0.id = tc.id ∧ tc0.valid.Perm tc.valid ∧ tc0.invalid.Perm tc.invalid)
+
+theorem TestsEquiv.of_perm {t t' : List TestCase} (h : t.Perm t') : TestsEquiv t t' :=
+  ⟨fun tc htc => ⟨tc, h.mem_iff.mpr htc, rfl, List.Perm.refl _, List.Perm.refl _⟩,
+   fun tc htc => ⟨tc, h.mem_iff.mp htc, rfl, List.Perm.refl _, List.Perm.refl _⟩⟩
+
+theorem loaded_perm (flt : Id → Bool) {d d' : Dir V} (hp : d.Perm d') (hc : CanonicalNames d) (id : Id) :
+    alookup id (loadSnapshots flt d') = alookup id (loadSnapshots flt d) := by
+  rw [alookup_loadSnapshots flt id _ hc, alookup_loadSnapshots flt id _ (hc.perm hp), readFile_perm hp hc]
+
+/-- **Order irrelevance of what is written (C13).** Permuting the test documents, the sources
+inside their lists and the snapshot files (canonical names) leaves the written directory unchanged
+as a map from file names to files: every name holds the same file (same id, same entries in the
+same — sorted — order) or no file in both.  (The position of the files in the walk may differ:
+`order_irrelevant_written_perm` states the resulting `Perm`.) -/
+theorem order_irrelevant_written (p : Project V) (fl : Flags) (tests' : List TestCase) (dir' : Dir V)
+    (ht : TestsEquiv p.tests tests') (hd : p.dir.Perm dir') (hc : CanonicalNames p.dir) (name : Name) :
+    readFile name (run { p with tests := tests', dir := dir' } fl).dir = readFile name (run p fl).dir := by
+  let p' : Project V := { p with tests := tests', dir := dir' }
+  have hc' : CanonicalNames p'.dir := hc.perm hd
+  by_cases hnu : fl.updateAll = false ∨ fl.skipSnapshotTests = true
+  · rw [no_update_no_write p' fl hnu, no_update_no_write p fl hnu]
+    exact (readFile_perm hd hc name).symm
+  · obtain ⟨sk, up, flt⟩ := fl
+    have hup : up = true := by cases up <;> simp_all
+    have hsk : sk = false := by cases sk <;> simp_all
+    subst hup hsk
+    have hpath : ∀ id, id ∈ pathIdsOf p' flt ↔ id ∈ pathIdsOf p flt := by
+      intro id
+      rw [mem_pathIdsOf, mem_pathIdsOf]
+      constructor
+      · rintro ⟨tc, htc, hf, hid⟩
+        obtain ⟨tc0, h0, hid0, _⟩ := ht.1 tc htc
+        exact ⟨tc0, h0, hid0 ▸ hf, hid0.trans hid⟩
+      · rintro ⟨tc0, h0, hf, hid⟩
+        obtain ⟨tc, htc, hid0, _⟩ := ht.2 tc0 h0
+        exact ⟨tc, htc, hid0 ▸ hf, hid0.symm.trans hid⟩
+    by_cases hname : ∃ id, id ∈ pathIdsOf p flt ∧ name = snapName id
+    · obtain ⟨id, hp, rfl⟩ := hname
+      have hp' : id ∈ pathIdsOf p' flt := (hpath id).mpr hp
+      have hload : alookup id (loadSnapshots flt p'.dir) = alookup id (loadSnapshots flt p.dir) :=
+        loaded_perm flt hd hc id
+      have hstored : ∀ s, stored flt p'.dir id s = stored flt p.dir id s := fun s => by
+        unfold stored; rw [hload]
+      have hrule : (∃ tc ∈ p'.tests, flt tc.id = true ∧ tc.id = id ∧ id ∈ p'.rules) ↔
+          (∃ tc ∈ p.tests, flt tc.id = true ∧ tc.id = id ∧ id ∈ p.rules) := by
+        constructor
+        · rintro ⟨tc, htc, hf, hid, hr⟩
+          obtain ⟨tc0, h0, hid0, _⟩ := ht.1 tc htc
+          exact ⟨tc0, h0, hid0 ▸ hf, hid0.trans hid, hr⟩
+        · rintro ⟨tc0, h0, hf, hid, hr⟩
+          obtain ⟨tc, htc, hid0, _⟩ := ht.2 tc0 h0
+          exact ⟨tc, htc, hid0 ▸ hf, hid0.symm.trans hid, hr⟩
+      have hT : ∀ s, Tested p' flt id s ↔ Tested p flt id s := by
+        intro s
+        constructor
+        · rintro ⟨tc, htc, hf, hid, hr, hs, hv⟩
+          obtain ⟨tc0, h0, hid0, _, hi⟩ := ht.1 tc htc
+          exact ⟨tc0, h0, hid0 ▸ hf, hid0.trans hid, hr, hi.mem_iff.mpr hs, hv⟩
+        · rintro ⟨tc0, h0, hf, hid, hr, hs, hv⟩
+          obtain ⟨tc, htc, hid0, _, hi⟩ := ht.2 tc0 h0
+          exact ⟨tc, htc, hid0 ▸ hf, hid0.symm.trans hid, hr, hi.mem_iff.mp hs, hv⟩
+      rw [readFile_run_update p' flt id, readFile_run_update p flt id, if_pos hp, if_pos hp']
+      cases hm : alookup id (mergedOf p flt) with
+      | none =>
+        have h1 := (mergedOf_none_iff p flt id).mp hm
+        have : alookup id (mergedOf p' flt) = none :=
+          (mergedOf_none_iff p' flt id).mpr ⟨hload.trans h1.1, fun h => h1.2 (hrule.mp h)⟩
+        rw [this]
+        exact (readFile_perm hd hc _).symm
+      | some m =>
+        cases hm' : alookup id (mergedOf p' flt) with
+        | none =>
+          have h1 := (mergedOf_none_iff p' flt id).mp hm'
+          have : alookup id (mergedOf p flt) = none :=
+            (mergedOf_none_iff p flt id).mpr ⟨hload.symm.trans h1.1, fun h => h1.2 (hrule.mpr h)⟩
+          rw [this] at hm; cases hm
+        | some m' =>
+          simp only
+          congr 2
+          apply orderedMap_ext (inner_nodup_mergedOf p' flt id m' hm') (inner_nodup_mergedOf p flt id m hm)
+          intro s
+          by_cases hTs : Tested p flt id s
+          · obtain ⟨tc, htc, hf', hid, hr, hs, v, hg⟩ := hTs
+            have hTs : Tested p flt id s := ⟨tc, htc, hf', hid, hr, hs, v, hg⟩
+            have h1 := (mergedOf_lookup p flt id s).1 v hTs hg
+            have h2 := (mergedOf_lookup p' flt id s).1 v ((hT s).mpr hTs) hg
+            rw [hm] at h1; rw [hm'] at h2
+            exact h2.trans h1.symm
+          · have h1 := (mergedOf_lookup p flt id s).2 hTs
+            have h2 := (mergedOf_lookup p' flt id s).2 (fun h => hTs ((hT s).mp h))
+            rw [hm] at h1; rw [hm'] at h2
+            exact h2.trans ((hstored s).trans h1.symm)
+    · have hn : ∀ id, id ∈ pathIdsOf p flt → snapName id ≠ name := fun id hp e => hname ⟨id, hp, e.symm⟩
+      rw [untouched_snapshots p' ⟨false, true, flt⟩ name (fun tc htc hf =>
+            hn tc.id ((hpath tc.id).mp ((mem_pathIdsOf p' flt _).mpr ⟨tc, htc, hf, rfl⟩))),
+        untouched_snapshots p ⟨false, true, flt⟩ name (fun tc htc hf =>
+            hn tc.id ((mem_pathIdsOf p flt _).mpr ⟨tc, htc, hf, rfl⟩))]
+      exact (readFile_perm hd hc name).symm
+
+omit [DecidableEq V] in
+theorem nodup_of_nodup_map {α β : Type} (f : α → β) : ∀ l : List α, (l.map f).Nodup → l.Nodup := by
+  intro l
+  induction l with
+  | nil => intro _; exact List.nodup_nil
+  | cons x rest ih =>
+    intro h
+    simp only [List.map_cons, List.nodup_cons] at h ⊢
+    exact ⟨fun hx => h.1 (List.mem_map.mpr ⟨x, hx, rfl⟩), ih h.2⟩
+
+omit [DecidableEq V] in
+theorem dir_perm_of_readFile_eq {d1 d2 : Dir V} (h1 : CanonicalNames d1) (h2 : CanonicalNames d2)
+    (h : ∀ name, readFile name d1 = readFile name d2) : d1.Perm d2 := by
+  have n1 : d1.Nodup := nodup_of_nodup_map _ _ h1.2
+  have n2 : d2.Nodup := nodup_of_nodup_map _ _ h2.2
+  rw [List.perm_ext_iff_of_nodup n1 n2]
+  intro f
+  constructor
+  · intro hf; exact (readFile_some ((h f.name) ▸ readFile_of_mem h1 hf)).1
+  · intro hf; exact (readFile_some ((h f.name).symm ▸ readFile_of_mem h2 hf)).1
+
+/-- the same as a statement about the two directory listings: one is a permutation of the other
+(files compared with their names, ids and entries in written order) -/
+theorem order_irrelevant_written_perm (p : Project V) (fl : Flags) (tests' : List TestCase) (dir' : Dir V)
+    (ht : TestsEquiv p.tests tests') (hd : p.dir.Perm dir') (hc : CanonicalNames p.dir) :
+    (run { p with tests := tests', dir := dir' } fl).dir.Perm (run p fl).dir :=
+  dir_perm_of_readFile_eq (canonical_run { p with tests := tests', dir := dir' } fl (hc.perm hd)) (canonical_run p fl hc)
+    (order_irrelevant_written p fl tests' dir' ht hd hc)
+
+/-! non-vacuity -/
+
+/-- a project with two documents sharing the id `r` (114), a stale and an orphan snapshot file, canonical names -/
+def exProject : Project Nat :=
+  { rules := [[114]], gen := (fun _ s => if s = [1] ∨ s = [2] then .snap (s.length + 5) else .noMatch), tests := [⟨[114], [[3]], [[1]]⟩, ⟨[114], [], [[2], [1]]⟩], dir := [⟨snapName [103], [103], [([9], 9)]⟩, ⟨snapName [114], [114], [([7], 7), ([1], 0)]⟩] }
+
+example : CanonicalNames exProject.dir := by decide
+
+/-- `-U` fails nothing, rewrites `r-snapshot.yml` sorted (stale `[1]` replaced, `[2]` added, the
+entry `[7]` nobody asks for kept); the next `test` reports `..` and `..`; `-U` again is the identity -/
+example :
+    (run exProject ⟨false, true, fun _ => true⟩).dir =
+      [⟨snapName [103], [103], [([9], 9)]⟩, ⟨snapName [114], [114], [([1], 6), ([2], 6), ([7], 7)]⟩] ∧
+    (run { exProject with dir := (run exProject ⟨false, true, fun _ => true⟩).dir } ⟨false, false, fun _ => true⟩).results =
+      [⟨[114], [.validated, .reported]⟩, ⟨[114], [.reported, .reported]⟩] ∧
+    (run { exProject with dir := (run exProject ⟨false, true, fun _ => true⟩).dir } ⟨false, true, fun _ => true⟩).dir =
+      (run exProject ⟨false, true, fun _ => true⟩).dir := by decide
+
+/-- documents swapped, lists reversed, snapshot files swapped: the same two files, in the other walk order -/
+example :
+    (run { exProject with tests := [⟨[114], [], [[1], [2]]⟩, ⟨[114], [[3]], [[1]]⟩], dir := exProject.dir.reverse } ⟨false, true, fun _ => true⟩).dir =
+      [⟨snapName [114], [114], [([1], 6), ([2], 6), ([7], 7)]⟩, ⟨snapName [103], [103], [([9], 9)]⟩] := by decide
+
 end AGV.Verify
